@@ -111,7 +111,7 @@ def preprocess (e : Str) : Except Err (Str × Bool) := do
   let e ← unaryOp e
   let e := funcAt e
   let void := contains ['='] e
-  pure (if void then e else "#output = ".toList ++ e, void)
+  pure (if void then e else ['#', 'o', 'u', 't', 'p', 'u', 't', ' ', '=', ' '] ++ e, void)
 
 /-! ## `utils.makeRPN`, character level -/
 
@@ -244,10 +244,14 @@ def digitsVal : Str → Nat → Option Nat
 /-- decimal literals `12`, `12.`, `12.5`, `.5` → (mantissa, number of decimals).
     (Python's `float()` also accepts exponents, `inf`, `nan`, underscores, signs: outside the grammar.) -/
 def parseLit (s : Str) : Option (Nat × Nat) :=
-  match splitOn s ['.'] with
-  | [a] => if a.isEmpty then none else (digitsVal a 0).map (fun m => (m, 0))
-  | [a, b] => if a.isEmpty && b.isEmpty then none else (digitsVal (a ++ b) 0).map (fun m => (m, b.length))
-  | _ => none
+  match s with
+  | [] => none
+  | c :: _ =>
+    if !(c.isDigit || c == '.') then none
+    else match splitOn s ['.'] with
+    | [a] => if a.isEmpty then none else (digitsVal a 0).map (fun m => (m, 0))
+    | [a, b] => if a.isEmpty && b.isEmpty then none else (digitsVal (a ++ b) 0).map (fun m => (m, b.length))
+    | _ => none
 
 /-! ## The track: coordinates, timestamps (as epoch seconds) and the feature table -/
 
@@ -262,7 +266,7 @@ structure Tr (α : Type) where
 section
 variable {α : Type} [Scalar α]
 
-def reservedNames : List Str := [['x'], ['y'], ['z'], ['t'], "timestamp".toList, ['i', 'd', 'x']]
+def reservedNames : List Str := [['x'], ['y'], ['z'], ['t'], ['t', 'i', 'm', 'e', 's', 't', 'a', 'm', 'p'], ['i', 'd', 'x']]
 def isReserved (s : Str) : Bool := reservedNames.contains s
 
 def lookup (s : Str) : List (Str × List α) → Option (List α)
@@ -275,7 +279,7 @@ def hasAF (tr : Tr α) (s : Str) : Bool := (lookup s tr.feats).isSome || isReser
 def getAF (tr : Tr α) (s : Str) : Except Err (List α) :=
   if s = ['x'] then .ok tr.xs else if s = ['y'] then .ok tr.ys else if s = ['z'] then .ok tr.zs
   else if s = ['t'] then .ok tr.ts
-  else if s = "timestamp".toList then .error "err:unsupported"
+  else if s = ['t', 'i', 'm', 'e', 's', 't', 'a', 'm', 'p'] then .error "err:unsupported"
   else if s = ['i', 'd', 'x'] then .ok ((List.range tr.n).map ofNat)
   else match lookup s tr.feats with
     | some c => .ok c
@@ -421,12 +425,12 @@ def stdL (c : List α) : Except Err α := do
   sqrt (div (sq.foldl add zero) (ofNat v.length))
 
 def isAggFn (f : Str) : Bool :=
-  f = ['S', 'U', 'M'] || f = ['A', 'V', 'G'] || f = ['M', 'I', 'N'] || f = ['M', 'A', 'X'] || f = "MEDIAN".toList
+  f = ['S', 'U', 'M'] || f = ['A', 'V', 'G'] || f = ['M', 'I', 'N'] || f = ['M', 'A', 'X'] || f = ['M', 'E', 'D', 'I', 'A', 'N']
     || f = ['M', 'A', 'D'] || f = ['S', 'T', 'D']
 def aggFn (f : Str) (c : List α) : Except Err α :=
   if f = ['S', 'U', 'M'] then .ok (sumL c) else if f = ['A', 'V', 'G'] then avgL c
   else if f = ['M', 'I', 'N'] then .ok (minL c) else if f = ['M', 'A', 'X'] then .ok (maxL c)
-  else if f = "MEDIAN".toList then middle c else if f = ['M', 'A', 'D'] then madL c
+  else if f = ['M', 'E', 'D', 'I', 'A', 'N'] then middle c else if f = ['M', 'A', 'D'] then madL c
   else if f = ['S', 'T', 'D'] then stdL c
   else .error "err:unsupported"
 
@@ -456,10 +460,19 @@ def opScal (tr : Tr α) (o : Char) (inp : Str) (s : α) (out : Str) : Res α (Li
   else runVoid tr out (fun t => do let a ← getAF t inp; vsOp o a s)
 def opScalRev (tr : Tr α) (o : Char) (inp : Str) (s : α) (out : Str) : Res α (List α) :=
   runVoid tr out (fun t => do let a ← getAF t inp; svOp o s a)
+/-- the input column of a void function. The reads are per observation inside the loops: on a track
+    too short for the loop body to run, an unknown input name is never looked up (the column, when it
+    exists, is then not used either) -/
+def voidInput (t : Tr α) (f inp : Str) : Except Err (List α) :=
+  if voidReads f t.n then getAF t inp
+  else match getAF t inp with
+    | .ok c => .ok c
+    | .error _ => .ok []
+def voidCompute (f inp : Str) (t : Tr α) : Except Err (List α) := do
+  let a ← voidInput t f inp
+  voidFn f t.n a
 def opVoidFn (tr : Tr α) (f : Str) (inp out : Str) : Res α (List α) :=
-  runVoid tr out (fun t => do
-    let a ← if voidReads f t.n then getAF t inp else .ok []
-    voidFn f t.n a)
+  runVoid tr out (voidCompute f inp)
 def opAgg (tr : Tr α) (f : Str) (inp : Str) : Except Err α := do
   let a ← getAF tr inp
   aggFn f a
@@ -495,6 +508,10 @@ def isTemp (s : Str) : Bool := s.head? == some '#'
 
 def binOps : List Char := ['+', '-', '*', '/', '^', '>', '<']
 
+/-- `setXFromAnalyticalFeature` / `setY…` / `setZ…`: one coordinate column replaced -/
+def setCoord (tr : Tr α) (l : Str) (c : List α) : Tr α :=
+  if l = ['x'] then { tr with xs := c } else if l = ['y'] then { tr with ys := c } else { tr with zs := c }
+
 /-- the `operator == "="` branch -/
 def assign (tr : Tr α) (op1 op2 : Item α) : Res α Unit :=
   match op1 with
@@ -507,7 +524,7 @@ def assign (tr : Tr α) (op1 op2 : Item α) : Res α Unit :=
             match getAF tr r with
             | .error e => (.error e, tr)
             | .ok c =>
-              let tr1 := if l = ['x'] then { tr with xs := c } else if l = ['y'] then { tr with ys := c } else { tr with zs := c }
+              let tr1 := setCoord tr l c
               if isTemp r then
                 match removeAF tr1 r with
                 | .error e => (.error e, tr1)
@@ -654,9 +671,29 @@ def evalRPN (tr : Tr α) : List Str → List (Item α) → Nat → Res α (List 
 /-- the `finally` of `Track.operate`: every listed name starting with `#` is removed -/
 def purge (tr : Tr α) : Tr α := { tr with feats := tr.feats.filter (fun p => !isTemp p.1) }
 
-def outputName : Str := "#output".toList
+def outputName : Str := ['#', 'o', 'u', 't', 'p', 'u', 't']
 
-/-- `Track.__evaluate` after the string rewriting -/
+/-- the end of `Track.__evaluate`, from the postfix token list on: run the stack machine, then fetch
+    and remove `#output` when the expression had no `=` -/
+def evalTokens (tr : Tr α) (rpn : List Str) (void : Bool) : Res α (Option (List α)) :=
+  match evalRPN tr rpn [] 0 with
+  | (.error e, tr1) => (.error e, tr1)
+  | (.ok _, tr1) =>
+    if void then (.ok none, tr1)
+    else
+      match getAF tr1 outputName with
+      | .error e => (.error e, tr1)
+      | .ok c =>
+        match removeAF tr1 outputName with
+        | .error e => (.error e, tr1)
+        | .ok tr2 => (.ok (some c), tr2)
+
+/-- `Track.operate` on a postfix token list: evaluation followed by the purge of the `finally` clause -/
+def operateTokens (tr : Tr α) (rpn : List Str) (void : Bool) : Res α (Option (List α)) :=
+  let r := evalTokens tr rpn void
+  (r.1, purge r.2)
+
+/-- `Track.__evaluate` -/
 def evaluate (tr : Tr α) (expr : Str) : Res α (Option (List α)) :=
   match preprocess expr with
   | .error e => (.error e, tr)
@@ -666,23 +703,12 @@ def evaluate (tr : Tr α) (expr : Str) : Res α (Option (List α)) :=
     | .ok rpn0 =>
       match doublePrime rpn0 with
       | .error e => (.error e, tr)
-      | .ok rpn =>
-        match evalRPN tr rpn [] 0 with
-        | (.error e, tr1) => (.error e, tr1)
-        | (.ok _, tr1) =>
-          if void then (.ok none, tr1)
-          else
-            match getAF tr1 outputName with
-            | .error e => (.error e, tr1)
-            | .ok c =>
-              match removeAF tr1 outputName with
-              | .error e => (.error e, tr1)
-              | .ok tr2 => (.ok (some c), tr2)
+      | .ok rpn => evalTokens tr rpn void
 
 /-- `Track.operate(expression)` -/
 def operate (tr : Tr α) (expr : Str) : Res α (Option (List α)) :=
-  let (r, tr1) := evaluate tr expr
-  (r, purge tr1)
+  let r := evaluate tr expr
+  (r.1, purge r.2)
 
 /-! ## Specification side: expression trees -/
 
